@@ -187,6 +187,9 @@ Definition exec_drop_role (s : state) (r : string) : state * result :=
   then (set_roles s (filter (fun x => negb (String.eqb x r)) (st_roles s)), ROk)
   else (s, RErr ERoleNotFound).
 
+(** [role == "ADMIN" || role == "DBA"] (privilege_checker.rs and grant.rs) *)
+Definition is_admin (r : string) : bool := String.eqb r "ADMIN" || String.eqb r "DBA".
+
 (** ** [GrantExecutor::execute_grant] *)
 Definition is_schema_privilege (p : privilege) : bool :=
   match p with PUsage | PExecute => true | _ => false end.
@@ -211,7 +214,30 @@ Definition new_grants (obj : string) (ot : objtype) (expanded : list privilege) 
            (grantor : string) (wgo : bool) : list grant :=
   flat_map (fun ge => map (fun p => mkGrant obj ot p ge grantor wgo) expanded) grantees.
 
+(** the session role holds [p] on [obj] WITH GRANT OPTION:
+    [get_all_grants().iter().any(|g| g.grantee == grantor && g.object == object_name && g.privilege == *privilege && g.with_grant_option)] *)
+Definition may_grant (s : state) (obj : string) (p : privilege) : bool :=
+  existsb (fun g => matches obj (current_role s) p g && g_wgo g) (st_grants s).
+
+(** the authority check (fix "grant-requires-authority"): nothing is checked while security is disabled, ADMIN / DBA
+    may grant anything, any other role needs every (expanded) privilege on the object with grant option *)
+Definition grant_authorised (s : state) (obj : string) (expanded : list privilege) : bool :=
+  negb (st_security s) || is_admin (current_role s) || forallb (may_grant s obj) expanded.
+
 Definition exec_grant (s : state) (privs : list privilege) (ot : objtype) (obj : string)
+           (grantees : list string) (wgo : bool) : state * result :=
+  match grant_object_check s privs ot obj with
+  | inr e => (s, RErr e)
+  | inl actual =>
+      if all_roles_exist s grantees
+      then if grant_authorised s obj (expand privs actual)
+           then (set_grants s (st_grants s ++ new_grants obj actual (expand privs actual) grantees (current_role s) wgo), ROk)
+           else (s, RErr EPermissionDenied)
+      else (s, RErr ERoleNotFound)
+  end.
+
+(** GRANT as it was before that fix: no look at the session at all (kept for the record, [PrivLaws.grant_before_*]) *)
+Definition exec_grant_before (s : state) (privs : list privilege) (ot : objtype) (obj : string)
            (grantees : list string) (wgo : bool) : state * result :=
   match grant_object_check s privs ot obj with
   | inr e => (s, RErr e)
@@ -314,7 +340,6 @@ Definition kind_priv (k : check_kind) : privilege :=
   | KAlter => PCreate
   end.
 
-Definition is_admin (r : string) : bool := String.eqb r "ADMIN" || String.eqb r "DBA".
 
 (** [PrivilegeChecker::check_privilege] *)
 Definition check_privilege (s : state) (obj : string) (p : privilege) : bool :=
@@ -359,4 +384,12 @@ Fixpoint results (s : state) (h : list op) : list result :=
   match h with
   | [] => []
   | o :: r => snd (step s o) :: results (fst (step s o)) r
+  end.
+
+(** what a connected client can issue: statements, but neither [Database::set_role] nor the security switch
+    (both are host-API calls, not SQL) *)
+Definition session_op (o : op) : bool :=
+  match o with
+  | OSetRole _ | OSetSecurity _ => false
+  | _ => true
   end.
